@@ -103,6 +103,27 @@ def pick(t, terms):
 
 JOINED = "__c20_joined__"
 
+# ---- ghost yield stream of a generator under its own contract (round 7): the sequence a generator produces is the sequence of its
+# `yield`s in execution order.  It is carried as ghost state of the path: YCOUNT (Int: values yielded so far), YLENS (Array Int ->
+# Int: length of the k-th yielded byte string), YSTREAM (Array Int -> (Array Int -> BV8): its bytes).  `yield v` stores v at index
+# YCOUNT and advances YCOUNT; a loop cut havocs all three (LoopSpec.havoc) and the loop invariant says what they are.  Only a
+# contract that asks for it (init_yield_stream in its `requires`) has the stream.
+YCOUNT, YLENS, YSTREAM = "c20:ycount", "c20:ylens", "c20:ystream"
+YIELD_STREAM = (YCOUNT, YLENS, YSTREAM)
+
+
+def init_yield_stream(st):
+    st.ghost[YCOUNT] = z3.IntVal(0)
+    st.ghost[YLENS] = z3.Array(fresh_name("ylens0"), I, I)
+    st.ghost[YSTREAM] = z3.Array(fresh_name("ystream0"), I, ARR)
+
+
+def yield_stream(st):
+    g = st.ghost
+    if YCOUNT not in g:
+        raise Unsupported("no ghost yield stream on this path")
+    return g[YCOUNT], g[YLENS], g[YSTREAM]
+
 
 class VGenJoined(VUnk):
     """Result of an inlined block-generator helper of a driver: for every consumer it is an unknown value (VUnk), except
@@ -357,6 +378,18 @@ class C20Executor(Executor):
 
     def on_yield(self, st, v, node):
         ref = self._joined_ref(st)
+        if ref is None and YCOUNT in st.ghost and self.inline_depth == 0:
+            # generator under its own contract: the k-th yielded value is element k of the produced sequence
+            if isinstance(v, VRef) and st.heap.get(v.ref) is not None and st.obj(v.ref).kind == "symarr":
+                raise Unsupported(f"{self.loc(node)} generator yields a mutable buffer (its later content is what the consumer sees)")
+            if not (self._bytes_like(v)):
+                raise Unsupported(f"{self.loc(node)} generator yields a value that is not a byte string: {v!r}")
+            yn, ya = arr_of(v)
+            cnt, yl, ys = yield_stream(st)
+            st.ghost[YLENS] = z3.Store(yl, cnt, yn)
+            st.ghost[YSTREAM] = z3.Store(ys, cnt, ya)
+            st.ghost[YCOUNT] = cnt + 1
+            return super().on_yield(st, v, node)
         if ref is None:
             return super().on_yield(st, v, node)
         items = self.concrete_items(st, v)
